@@ -109,6 +109,8 @@ type Summary struct {
 }
 
 var (
+	infraMu sync.Mutex
+	infra   []string // runs the harness could not start
 	verifDir string
 	workDir  string
 	env      []string
@@ -492,6 +494,9 @@ func main() {
 		exit = 1
 	}
 
+	if len(infra) > 0 {
+		die2("%d simulated run(s) could not be started by the harness; first: %s", len(infra), trunc(infra[0], 800))
+	}
 	if len(unconfirmedDeaths) > 0 {
 		if exit == 0 {
 			die2("%s", unconfirmedDeaths[0])
@@ -617,6 +622,15 @@ func parseOut(path string) (sums []Summary, recs []Record, nondet []string) {
 		}
 		json.Unmarshal(line, &k)
 		switch k.Kind {
+		case "infrastructure":
+			var x struct {
+				Seed int64  `json:"seed"`
+				Msg  string `json:"msg"`
+			}
+			json.Unmarshal(line, &x)
+			infraMu.Lock()
+			infra = append(infra, fmt.Sprintf("seed %d: %s", x.Seed, x.Msg))
+			infraMu.Unlock()
 		case "summary":
 			var s Summary
 			if json.Unmarshal(line, &s) == nil {
